@@ -31,7 +31,17 @@ def optimum(m):
     return min(best.values())
 
 
+def solve(solver, m):
+    """solver.compute(m); an exception escaping from the solver is a failed case (reported), never a harness crash"""
+    try:
+        return solver.compute(m)
+    except Exception as e:          # noqa
+        return '%s: %s' % (type(e).__name__, str(e)[:120])
+
+
 def check_solution(m, pairs):
+    if isinstance(pairs, str):
+        return 'compute raised ' + pairs
     r, c = len(m), len(m[0])
     if len(pairs) != min(r, c):
         return 'expected %d pairs, got %d: %r' % (min(r, c), len(pairs), pairs)
@@ -59,7 +69,7 @@ def run(tier, seed):
         for vals in itertools.product((0, 1, 2), repeat=r * c):
             m = [list(vals[i * c:(i + 1) * c]) for i in range(r)]
             before = copy.deepcopy(m)
-            bad = check_solution(m, mk.Munkres().compute(m))
+            bad = check_solution(m, solve(mk.Munkres(), m))
             if m != before:
                 bad = bad or "the caller's matrix was modified"
             n += 1
@@ -68,7 +78,7 @@ def run(tier, seed):
     step = 1 if tier == 'thorough' else 1
     for vals in itertools.product((0, 1), repeat=16):
         m = [list(vals[i * 4:(i + 1) * 4]) for i in range(4)]
-        bad = check_solution(m, mk.Munkres().compute(m))
+        bad = check_solution(m, solve(mk.Munkres(), m))
         n += 1
         if bad:
             t.fail('Munkres.compute (exhaustive 4x4 over {0,1})', repr(m), 'matrix %r: %s' % (m, bad))
@@ -91,7 +101,7 @@ def run(tier, seed):
         r, c = rnd.randint(1, maxdim), rnd.randint(1, maxdim)
         m = [[kinds[kind]() for _ in range(c)] for _ in range(r)]
         before = copy.deepcopy(m)
-        bad = check_solution(m, mk.Munkres().compute(m))
+        bad = check_solution(m, solve(mk.Munkres(), m))
         if m != before:
             bad = bad or "the caller's matrix was modified"
         if bad:
@@ -105,7 +115,7 @@ def run(tier, seed):
             kind = rnd.choice(list(kinds))
             r, c = rnd.randint(1, 5), rnd.randint(1, 5)
             m = [[kinds[kind]() for _ in range(c)] for _ in range(r)]
-            bad = check_solution(m, solver.compute(m))
+            bad = check_solution(m, solve(solver, m))
             if bad:
                 t.fail('Munkres reuse', (k, step_no, repr(m)), 'solve #%d on a reused solver, matrix %r: %s' % (step_no, m, bad))
                 break
